@@ -1,7 +1,7 @@
 (* C06 -- Extrapolation continues the end polynomial and never rejects a finite query. *)
 From Coq Require Import List Bool Arith ZArith QArith Qcanon.
 From NI Require Import Num Base Lookup Linear Interp Spline LookupProofs LinearProofs LinearExact
-  Tri TriProofs SplineAlgebra SplineProofs SplineStruct SplineIndividual.
+  Tri TriProofs SplineAlgebra SplineProofs SplineStruct SplineIndividual Units UnitsList BilinearList.
 Import ListNotations.
 Local Open Scope nat_scope.
 
@@ -107,6 +107,29 @@ Proof.
   exists kq. split; [exact A|]. intros x. apply B. discriminate.
 Qed.
 Print Assumptions C06_ext_value_is_end_piece_spline_individual.
+
+(* Bilinear: with extrapolation every query is answered by the bilinear form of the cell the two lookups
+   select, which is the border cell (index 0 / n-2 per axis) for a coordinate outside the grid *)
+Theorem C06_ext_value_is_border_cell_bilinear :
+  forall (xax yax : list Qc) (data : list (list (list Qc))),
+    StrictIncQc xax -> StrictIncQc yax -> 2 <= length xax -> 2 <= length yax ->
+    (Z.of_nat (length xax) <= two64)%Z -> (Z.of_nat (length yax) <= two64)%Z ->
+    length data = length xax -> (forall i, i < length data -> length (nth i data []) = length yax) ->
+    forall x y : Qc, exists ix iy,
+      lower_index NumQc xax x = Ok ix /\ lower_index NumQc yax y = Ok iy /\
+      ix + 2 <= length xax /\ iy + 2 <= length yax /\
+      ((this x <= this (nth 0 xax 0%Qc))%Q -> ix = 0) /\
+      ((this (nth 0 xax 0%Qc) < this x)%Q -> (this (nth (length xax - 1) xax 0%Qc) <= this x)%Q -> ix = length xax - 2) /\
+      ((this y <= this (nth 0 yax 0%Qc))%Q -> iy = 0) /\
+      ((this (nth 0 yax 0%Qc) < this y)%Q -> (this (nth (length yax - 1) yax 0%Qc) <= this y)%Q -> iy = length yax - 2) /\
+      bilinear_interp NumQc true xax yax data x y =
+      Ok (map4 (fun z11 z12 z21 z22 =>
+                  let u := ((x - nth ix xax 0) / (nth (ix + 1) xax 0 - nth ix xax 0))%Qc in
+                  let v := ((y - nth iy yax 0) / (nth (iy + 1) yax 0 - nth iy yax 0))%Qc in
+                  ((1 - u) * (1 - v) * z11 + (1 - u) * v * z12 + u * (1 - v) * z21 + u * v * z22)%Qc)
+               (cell data ix iy) (cell data ix (iy + 1)) (cell data (ix + 1) iy) (cell data (ix + 1) (iy + 1))).
+Proof. exact bilinear_ext_border_cell. Qed.
+Print Assumptions C06_ext_value_is_border_cell_bilinear.
 
 (* continuity across the range ends: the end piece takes the end data value at the end knot *)
 Theorem C06_ext_continuous_at_ends :
